@@ -91,8 +91,10 @@ func (t *Text) GenerateOutput(textOnly bool) string {
 	// style is display:block.
 	var srcRoot *html.Node
 	for {
+		// A list, list item, quote or pre is represented by its own pair of tags in
+		// the output, so it is never wrapped (not even when it is styled as inline).
 		display := domutil.GetDisplayStyle(clonedRoot)
-		if display != "inline" {
+		if display != "inline" || CanBeNested(dom.TagName(clonedRoot)) {
 			break
 		}
 
